@@ -116,6 +116,8 @@ class _Rec:
         k = key or f"{function}:{clause}"
         self.perkey[k] = self.perkey.get(k, 0) + 1
         if self.perkey[k] <= 2:
+            if isinstance(replay, dict):
+                replay = dict(replay, _clause=clause)     # lets replay() report the clause that was recorded
             self.fails.append(dict(function=function, clause=clause, input=common.jsonable(input),
                                    expected=common.jsonable(expected), observed=common.jsonable(observed), key=key,
                                    replay=common.jsonable(replay)))
@@ -605,7 +607,7 @@ def _work(span):
     flags = []
     for i in range(lo, hi):
         flags.append(_run_case(rec, _CASES[i]))
-    return flags, rec.clauses, rec.fails, rec.counts
+    return flags, rec.clauses, rec.fails, rec.counts, rec.perkey
 
 
 def _desc(p):
@@ -637,7 +639,7 @@ def run(ctx):
     else:
         results = [_work(s) for s in spans]
     forwarded = {}
-    for (lo, hi), (flags, clauses, fails, counts) in zip(spans, results):
+    for (lo, hi), (flags, clauses, fails, counts, perkey) in zip(spans, results):
         for i, nt in zip(range(lo, hi), flags):
             ctx.case(_desc(_CASES[i]), nontrivial=nt)
             ctx.count("cases:" + _CASES[i]["kind"])
@@ -650,7 +652,8 @@ def run(ctx):
             forwarded[key] = forwarded.get(key, 0) + 1
             if forwarded[key] <= 2:
                 ctx.fail(f["function"], f["clause"], f["input"], f["expected"], f["observed"], f["key"], f["replay"])
-            ctx.count("failures:" + key)
+        for k, v in perkey.items():
+            ctx.count("failures:" + k, v)
     ctx.exhaustive_parts.append("bases of add_random_edge(s) / random_shuffle / random_shuffle_all_orders: every "
                                 "hypergraph on nodes 0..3 with <= 3 hyperedges of sizes 1..4 (576), every size present, "
                                 "p in {0,.3,.5,1}, inplace True/False (random outcomes sampled by seed)")
@@ -667,7 +670,8 @@ def replay(data):
     rec = _Rec()
     _run_case(rec, data)
     if rec.fails:
-        f = rec.fails[0]
+        want = data.get("_clause") if isinstance(data, dict) else None
+        f = ([x for x in rec.fails if x["clause"] == want] or rec.fails)[0]
         return False, (f"{f['function']}: clause '{f['clause']}' fails; expected {str(f['expected'])[:300]} "
                        f"observed {str(f['observed'])[:300]}")
     return True, "all contract clauses hold on this input (%d clause evaluations)" % sum(rec.clauses.values())
